@@ -24,8 +24,8 @@ class C10(Prop):
     MODES = ("url", "url", "mixed")
     LONG_BIAS = 0.2
     BACKENDS = ("file", "file", "memory")
-    WEIGHTS = {"page": 5, "pages": 3, "links": 5, "batch": 4, "again": 1, "create": 2, "delete": 1, "addprefix": 3,
-               "rmprefix": 1, "move": 1, "rule": 1, "unrule": 1, "reopen": 1, "clear": 1}
+    WEIGHTS = {"page": 5, "pages": 3, "links": 5, "batch": 4, "again": 1, "create": 2, "delete": 2, "addprefix": 3,
+               "rmprefix": 2, "move": 1, "rule": 1, "unrule": 1, "reopen": 1, "clear": 1}
     QUICK = (30, 16)
     THOROUGH = (150, 36)
     ASSUMPTIONS = ["relational oracle: the unpaginated get_webentity_pagelinks of the same index is the reference (its own "
@@ -35,9 +35,12 @@ class C10(Prop):
         wes = case.led.webentities()
         if not wes:
             return []
-        w = data.draw(st.sampled_from(sorted(wes)))
-        order = list(data.draw(st.permutations(wes[w])))
-        return [("probe", "static", w, order)]
+        # every webentity (at most five, drawn), each with its prefixes in a drawn order: paginated answers of one webentity
+        # must not depend on what was paginated for another one before
+        ws = sorted(wes)
+        if len(ws) > 5:
+            ws = sorted(data.draw(st.lists(st.sampled_from(ws), min_size=5, max_size=5, unique=True)))
+        return [("probe", "static", w, list(data.draw(st.permutations(wes[w])))) for w in ws]
 
     def run_probe(self, case, pop):
         try:
@@ -127,6 +130,29 @@ class C10(Prop):
             self.degenerate(ctx, 120)
         if shard == 1:
             self.degenerate(ctx, 1000)
+        if shard == 2 % nshards:
+            self.comb(ctx)
+
+    def comb(self, ctx):
+        """fixed shape: ten siblings inserted in ascending order (a right chain), each with a child and a grandchild page, every
+        page bearing links: with k=1 every token is issued, so the paths cover all alignments of left/child/right steps
+        (including the base-64 digits '-' and '_' of the token alphabet)"""
+        case = Case(self, ctx, Config(backend="memory", default_rule="domain"), None)
+        try:
+            site = b"s:http|h:com|h:comb|"
+            pages = []
+            for c in b"abcdefghij":
+                top = site + b"p:%c|" % c
+                pages += [top, top + b"p:x|", top + b"p:x|p:y|", top + b"p:z|"]
+            case.step(("pages", pages, True))
+            case.step(("links", [(p, pages[(i * 3 + 1) % len(pages)]) for i, p in enumerate(pages)]))
+            w = case.t.retrieve_webentity(pages[0])
+            order = [p for p, x in sorted(case.led.prefix_map.items()) if x == w]
+            case.ops.append(("probe", "static", w, order))
+            self.static(case, w, order)
+            ctx.extra["comb_shape"] += 1
+        finally:
+            case.abort()
 
     def degenerate(self, ctx, size):
         case = Case(self, ctx, Config(backend="memory"), None)
